@@ -422,6 +422,9 @@ def overwrite_and_gzip(repo, col):
             else:
                 mode = c.args[0] if c.args else kwarg(c, "mode")
             okm = False
+            if mode is not None and not isinstance(mode, ast.Name):
+                mt = norm(mode)
+                okm = "overwrite" in mt and "'xb'" in mt
             if isinstance(mode, ast.Name):
                 clos = closure_names(fn.node, [mode.id], defs)
                 okm = "overwrite" in clos
@@ -663,9 +666,19 @@ def dispatch_agreement(repo, col):
             "accessor.fetch_file('info')")]
         preds.append((test, pred, fetch))
         ok = len(pred) == 1 and len(fetch) >= 1
+        helper = None
+        if not ok:
+            for c in calls:
+                h = fn.module.functions.get(call_name(c) or "")
+                if h is not None and "info_is_sharded" in norm(h.node) and \
+                        "fetch_file('info')" in norm(h.node):
+                    helper = h.qualname
+                    pred = ["via " + helper]
+                    ok = True
         col.add(rule, fn, "%s: sharded iff info_is_sharded(fetched info)"
                 % test[:40], ok, "" if ok else "this branch does not decide "
                 "'sharded' from the fetched info with info_is_sharded")
+        preds[-1] = (test, pred, fetch)
         ret_sh = [norm(s.value) for s in body for s in
                   [x for x in ast.walk(s) if isinstance(x, ast.Return)]
                   if s.value is not None]
